@@ -21,7 +21,8 @@ other builders' use of py2lean2.py is untouched):
   with <ctx> [as f]: <body>            ->  `withs` rules give the value bound to f (bind allowed); the body is inlined
   try: .. except E [as e]: ..          ->  `try_fn body ok err` (PyX.tryE / W.tryW); `return` inside the body allowed;
                                            handlers see the scope at the entry of the try
-  raise E(..)                          ->  `raise_tmpl` of `exc[E]`
+  raise E(..)                          ->  `raise_tmpl` of `exc[E]`; a handler for E also catches the subclasses of E that
+                                           the vocabulary knows (`exc_parents`: OverwriteError is a ValueError)
   multi rules                          ->  one statement that rebinds several names (`x = l.pop(0)`)
   drop rules                           ->  statements without a meaning in the model (`warnings.warn(..)`)
   str constants without a rule         ->  `()` (they only occur in messages)
@@ -52,7 +53,7 @@ class Rules16(P.Rules2):
     monadic READ that cannot raise and changes nothing: it may be hoisted out of a lazily evaluated position)."""
 
     def __init__(self, multi=(), withs=(), drop=(), exc=None, raise_tmpl=".error {x}", pure_tmpl=".ok ({e})",
-                 try_fn="PyX.tryE", fuel=None, diverge=None, bind_exit=None, stmt=(), **kw):
+                 try_fn="PyX.tryE", fuel=None, diverge=None, bind_exit=None, stmt=(), exc_parents=None, **kw):
         self.stmt_flag = [(s[3] if len(s) > 3 else "") for s in stmt]
         # applied, not dotted: the monadic value may have a type Lean has not inferred yet (exit value of a loop)
         kw.setdefault("bind", "Except.bind ({m}) fun {x} =>\n{k}")
@@ -61,6 +62,10 @@ class Rules16(P.Rules2):
         self.withs = [(_pat(p, "expr"), t, (fl[0] if fl else "")) for p, t, *fl in withs]
         self.drop = [_pat(p, "stmt") for p in drop]
         self.exc = dict(exc or {})
+        # the exception hierarchy as far as the vocabulary goes: `except ValueError` also catches menpo's OverwriteError
+        # (class OverwriteError(ValueError)), `except LookupError` catches IndexError and KeyError
+        self.exc_parents = dict(exc_parents or {"OverwriteError": ["ValueError"], "IndexError": ["LookupError"],
+                                                "KeyError": ["LookupError"]})
         self.raise_tmpl = raise_tmpl
         self.pure_tmpl = pure_tmpl
         self.try_fn = try_fn
@@ -599,10 +604,13 @@ class Translator16(P.Translator2):
                 if any(n == "Exception" or n == "BaseException" for n in nm):
                     tests = None
                 else:
+                    caught = []
                     for n in nm:
-                        if n not in R.exc:
+                        hit = [x for x in R.exc if x == n or n in R.exc_parents.get(x, [])]
+                        if not hit:
                             raise Untranslatable("except %r" % n)
-                    tests = " || ".join("e_ == %s" % R.exc[n] for n in nm)
+                        caught += [x for x in hit if x not in caught]
+                    tests = " || ".join("e_ == %s" % R.exc[x] for x in caught)
             sc = dict(scope)
             sc["\0tmpe_"] = "e_"
             if h.name:
@@ -1050,7 +1058,7 @@ def fmt_items():
         "def genLjsonImporter (table : List (Nat × String)) (filepath : Json) : Except Exc String :=",
         f(E(expr=[("json.load($f, object_pairs_hook=OrderedDict)", "{f}"), ('$d.get("version")', "(Json.get .version {d})"),
                   ("_ljson_parser_for_version.get($v)", "(parserLookup table {v})"),
-                  ("$v != 3", "(!(jsonIsNat {v} 3))", "bool"), ("$p($d)", '(({p}).getD "")')],
+                  ("$v != 3", "(!(jsonIsNat {v} 3))", "bool"), ("$p($d)", "(callParser {p} {d})")],
             withs=[('$p.open("r")', "{p}")], drop=["warnings.warn($a, $b)"]),
           IL.ljson_importer, {"filepath": "filepath", "kwargs": "()"}, allow_unused=("kwargs",)), STUB))
     items.append((
@@ -1168,7 +1176,8 @@ def units():
         dict(name="guard", targets=["MenpoModel.GenProps.C16SrcGuard"], functions=[],
              theorems=[G + t for t in ("genNormPath_key", "export_guard_translated", "export_guard_translated_iff",
                                        "export_frame_translated", "export_guard_translated_spelling",
-                                       "pickle_guard_translated", "landmark_guard_translated", "video_guard_translated",
+                                       "pickle_guard_translated", "landmark_guard_translated", "landmark_guard_translated_first",
+                                       "video_guard_translated",
                                        "export_history_translated", "export_history_frame_translated",
                                        "export_import_agree_translated", "pickle_agree_translated",
                                        "pickle_written_translated")]),
